@@ -38,7 +38,7 @@ func c07Stress(c *vf.Ctx) {
 	if !c.Active(sub) {
 		return
 	}
-	n := c.N(100, 1200)
+	n := c.N(100, 3000)
 	pool := pcPeerPool()
 	for i := 0; i < n; i++ {
 		if !c.Mine(sub, i) {
@@ -297,7 +297,7 @@ func c07NoWait(c *vf.Ctx) {
 	if !c.Active(sub) {
 		return
 	}
-	n := c.N(30, 300)
+	n := c.N(30, 900)
 	pool := pcPeerPool()
 	for i := 0; i < n; i++ {
 		if !c.Mine(sub, i) {
@@ -423,7 +423,7 @@ func c07MissVsRefresh(c *vf.Ctx) {
 	if !c.Active(sub) {
 		return
 	}
-	n := c.N(40, 800)
+	n := c.N(40, 3000)
 	pool := pcPeerPool()
 	for i := 0; i < n; i++ {
 		if !c.Mine(sub, i) {
